@@ -144,9 +144,9 @@ func checkTree(w []byte, _ *ref.PDA) (string, bool, string, string) {
 // Menus for the structured-document enumerations.
 var (
 	leafMenu  = []string{"null", "true", "false", "0", "-12", "1.5", "1e2", `""`, `"a"`, `"\n"`, `"é"`, `"😀"`, `"[\"]{"`, "\"\xff\""}
-	keyMenu   = []string{`"a"`, `"b"`, `"a"`, `""`, `"\ud800"`, "\"\xff\""}
-	leafSmall = []string{"null", "true", "-1.5e1", `"a"`, `"\n"`}
-	keySmall  = []string{`"a"`, `"a"`, `"b"`}
+	keyMenu   = []string{`"a"`, `"b"`, `"\u0061"`, `""`, `"\ud800"`, `"\tx"`, "\"\xff\""}
+	leafSmall = []string{"null", "true", "-1.5e1", `"a"`, `"\n"`, `"\u0041b"`}
+	keySmall  = []string{`"a"`, `"\u0061"`, `"\u0062"`}
 )
 
 const corruptAlpha = "[]{}:,\"\\ 0-et\x00"
@@ -238,6 +238,6 @@ func c03(r *eng.Run) {
 	r.Set("e2_deep_family", deep)
 	r.Set("key_collisions_after_sanitising", int(atomic.LoadInt64(&treeCollisions)))
 	r.Set("rule", e1Rule+" For C03 the configuration is the first end-of-input event in the stack of nested machine invocations of the recursive ValueReader. E2: every JSON text with <= N value nodes over a leaf menu (all scalar kinds, escapes, multi-byte and invalid UTF-8) and a key menu (duplicates by escape, empty, lone surrogate, invalid UTF-8) in three whitespace styles, all distance-1 corruptions of the smaller texts, deep families at 9999..10001, float-range numbers in every position. Oracle: byte-preserving reference decoder (exact tree equality, floats by bit pattern), itself compared with encoding/json after UTF-8 sanitising.")
-	r.Sample(map[string]interface{}{"kind": "doc", "text": `{"a":[1.5,"\n"],"a":{"":null}}`, "note": "escaped duplicate key after a nested array"})
+	r.Sample(map[string]interface{}{"kind": "doc", "text": `{"a":[1.5,"\n"],"\u0061":{"":null}}`, "note": "escaped duplicate key after a nested array"})
 	r.Assume("trees are bounded by N nodes and the menus; nesting bound D in the BFS")
 }
